@@ -201,7 +201,50 @@ def r_cast(ctx):
     c01.schema_rules(ctx, only={'compile::<impl ast::Call>::compile'})
 
 
+def r_reconstruct(ctx):
+    rid = 'R07.8'
+    ctx.rule(rid, 'typed reconstruction: Value::reconstruct and Value::from_const_expr rebuild each variant with the type components of the node being visited (Left gets the right type, Right the left type, None the inner type, arrays/lists their element type and bound)')
+    fx = ctx.facts()
+    fn = ctx.anchor(fx, 'value::Value::reconstruct')
+    got = {}
+    for kind, p, ret in explore(ctx, fn, max_visits=1):
+        for e in event_calls(p, 'push'):
+            if 'Vec' not in e[1]:
+                continue
+            before = [(S(w), l) for w, l in p.conds[:e[5]]]
+            form = [l for w, l in before if w.endswith('@Some.0.node@Ok.ty)') or w.endswith('"parent is type-checked")')]
+            v = S(e[2][1])
+            node = re.search(r'(next\(into_iter\(post_order_iter\(destruct\(value, ty\)\)\)\)@Some\.0\.node)', v)
+            v = v.replace('as_inner(next(into_iter(post_order_iter(destruct(value, ty))))@Some.0.node@Ok.ty)', 'TY').replace('next(into_iter(post_order_iter(destruct(value, ty))))@Some.0.node', 'NODE')
+            v = re.sub(r'split_off\(new\(\), SubWithOverflow\(len\(new\(\)\), n_children\(NODE\)\)\.0\)', 'CHILDREN', v).replace('unwrap(pop(new()))', 'CHILD')
+            got['.'.join(form[-2:]) if form and form[-1] in ('Left', 'Right', 'None', 'Some') else (form[-1] if form else '?')] = v
+    exp = {'Either.Left': 'left(CHILD, TY@Either.1)', 'Either.Right': 'right(TY@Either.0, CHILD)', 'Option.None': 'none(TY@Option.0)', 'Option.Some': 'some(CHILD)',
+           'Tuple': 'tuple(CHILDREN)', 'Array': 'array(CHILDREN, TY@Array.0)', 'List': 'list(CHILDREN, TY@List.0, TY@List.1)',
+           'UInt': 'from(as_integer(NODE@Ok.value, TY@UInt.0))', 'Boolean': 'from(as_bit(NODE@Ok.value))'}
+    for k in sorted(set(exp) | set(got)):
+        ctx.ob(rid, 'reconstruct:' + k, got.get(k) == exp.get(k), 'reconstruct %s ↦ %s' % (k, exp.get(k)), fn.where(), 'found %s' % got.get(k) if got.get(k) != exp.get(k) else None)
+    fc = ctx.anchor(fx, 'value::Value::from_const_expr')
+    got = {}
+    for kind, p, ret in explore(ctx, fc, max_visits=1):
+        for e in event_calls(p, 'push'):
+            if 'Vec' not in e[1] or not is_call(e[2][1]) or 'ValueConstructible' not in e[2][1][1]:
+                continue
+            before = [(S(w), l) for w, l in p.conds[:e[5]]]
+            form = [l for w, l in before if 'inner(' in w and l in ('Tuple', 'Array', 'List', 'Either', 'Option', 'Left', 'Right', 'None', 'Some')]
+            v = S(e[2][1])
+            m = re.search(r'ty\(([^()]*(?:\([^()]*\))*[^()]*@Single\.0)\)', v)
+            v = re.sub(r'ty\((next\(into_iter\(post_order_iter\(Expression\{expr\}\)\)\)@Some\.0\.node@Single\.0)\)', 'TYPE', v)
+            v = v.replace('split_off(new(), SubWithOverflow(len(new()), n_children(next(into_iter(post_order_iter(Expression{expr})))@Some.0.node)).0)', 'CHILDREN').replace('unwrap(pop(new()))', 'CHILD')
+            got['.'.join(form[-2:]) if form and form[-1] in ('Left', 'Right', 'None', 'Some') else (form[-1] if form else '?')] = v
+    exp = {'Either.Left': 'left(CHILD, expect(as_either(TYPE), "value is type-checked").1)', 'Either.Right': 'right(expect(as_either(TYPE), "value is type-checked").0, CHILD)',
+           'Option.None': 'none(expect(as_option(TYPE), "value is type-checked"))', 'Option.Some': 'some(CHILD)', 'Tuple': 'tuple(CHILDREN)',
+           'Array': 'array(CHILDREN, expect(as_array(TYPE), "value is type-checked").0)', 'List': 'list(CHILDREN, expect(as_list(TYPE), "value is type-checked").0, expect(as_list(TYPE), "value is type-checked").1)'}
+    for k in sorted(set(exp) | set(got)):
+        ctx.ob(rid, 'const-fold:' + k, got.get(k) == exp.get(k), 'from_const_expr %s ↦ %s' % (k, exp.get(k)), fc.where(), 'found %s' % got.get(k) if got.get(k) != exp.get(k) else None)
+
+
 def check(ctx):
+    r_reconstruct(ctx)
     layout.r_btree(ctx, 'R07.1')
     layout.r_partition(ctx, 'R07.2')
     layout.r_pow2(ctx, 'R07.2p')
